@@ -1,12 +1,14 @@
 #!/bin/bash
 # Re-confirm every seeded change against the current /repo: patch applies, suite unaffected, demonstration
 # behaves (fails for breaking changes, passes for benign ones), then run the named check(s) against the
-# patched copy.  usage: tools/reconfirm_all.sh [parallelism]   (results: seeded/<id>/meta.json, log under /var/tmp/vt)
+# patched copy.  usage: tools/reconfirm_all.sh [parallelism] [id prefix regex, e.g. "C14|C18"]   (results: seeded/<id>/meta.json, log under /var/tmp/vt)
 cd "$(dirname "$0")/.."
 P=${1:-4}
+F=${2:-.}
 S=/var/tmp/vt/final; rm -rf $S; mkdir -p $S
 for d in seeded/*/; do
   n=$(basename $d); [ -f $d/meta.json ] || continue
+  echo $n | grep -Eq "^($F)" || continue
   /venv/bin/python -c "import json,sys;sys.exit(0 if json.load(open('$d/meta.json')).get('obsolete') else 1)" && continue
   mkdir -p $S/$n; cp $d/patch.diff $d/demo.py $d/meta.json $S/$n/
   extra=$(/venv/bin/python -c "import json;m=json.load(open('$d/meta.json'));print(' '.join(c for c in m.get('checks',[])[1:]))")
